@@ -10,6 +10,7 @@ import (
 	"flag"
 	"fmt"
 	"os"
+	"runtime"
 	"strings"
 	"sync"
 	"sync/atomic"
@@ -55,6 +56,16 @@ type event struct {
 	kind string // submit:<how> | cancel-return | begin | end | popped | checked | returned
 	task string
 	info string
+	gid  int64 // popped / checked: the goroutine (handler) that got there
+}
+
+// goid is the number of the calling goroutine (from its stack header).
+func goid() int64 {
+	var buf [64]byte
+	n := runtime.Stack(buf[:], false)
+	var id int64
+	_, _ = fmt.Sscanf(string(buf[:n]), "goroutine %d ", &id)
+	return id
 }
 
 type recorder struct {
@@ -67,13 +78,15 @@ type recorder struct {
 	lastEvt atomic.Int64 // unix nano of the last recorded event
 	// queued is called whenever a task is put into a queue (from outside, from its own body or by an inline action)
 	queued func(name string)
+	// scheduled is called before a Schedule call made by an inline action
+	scheduled func(name string, at time.Time)
 }
 
 type inlineAction struct {
 	Point string `json:"point"`
 	Task  string `json:"task"`
 	Nth   int    `json:"nth"`
-	Do    string `json:"do"` // cancel | queue | prioritize | asap
+	Do    string `json:"do"` // cancel | queue | prioritize | asap | schedule-soon (+30 ms) | schedule-far (+1 h)
 	// SleepMS keeps the portbase goroutine parked at the yield point after the action (e.g. long enough for a small max
 	// delay of the re-submitted task to expire while the handler is between its state checks and the execution)
 	SleepMS int `json:"sleep_ms,omitempty"`
@@ -93,6 +106,16 @@ func (r *recorder) rec(kind, task, info string) int64 {
 	return s
 }
 
+// recG records an event together with the goroutine that made it.
+func (r *recorder) recG(kind, task string) {
+	g := goid()
+	r.mu.Lock()
+	r.seq++
+	r.events = append(r.events, event{seq: r.seq, at: time.Now(), kind: kind, task: task, gid: g})
+	r.mu.Unlock()
+	r.lastEvt.Store(time.Now().UnixNano())
+}
+
 func hook(point, ctx string) {
 	r := cur.Load()
 	if r == nil || !strings.HasPrefix(point, "tasks.") {
@@ -103,11 +126,11 @@ func hook(point, ctx string) {
 	}
 	switch point {
 	case "tasks.handler.popped":
-		r.rec("popped", ctx, "")
+		r.recG("popped", ctx)
 	case "tasks.run.admitted":
 		// called with the task lock held: the order of this event and of a Cancel return is the real order of the
 		// admission decision and the cancel (recording after the unlock could be overtaken by a Cancel that came later)
-		r.rec("checked", ctx, "")
+		r.recG("checked", ctx)
 		return
 	case "tasks.exec.returned":
 		r.rec("returned", ctx, "")
@@ -146,14 +169,28 @@ func (r *recorder) apply(t *modules.Task, name, do, how string) {
 		r.noteQueued(name)
 		r.rec("submit:queue", name, how)
 		t.Queue()
+		r.rec("queue-return", name, "")
 	case "prioritize":
 		r.noteQueued(name)
 		r.rec("submit:prioritize", name, how)
 		t.QueuePrioritized()
+		r.rec("queue-return", name, "")
 	case "asap":
 		r.noteQueued(name)
 		r.rec("submit:asap", name, how)
 		t.StartASAP()
+		r.rec("queue-return", name, "")
+	case "schedule-soon", "schedule-far":
+		at := time.Now().Add(30 * time.Millisecond)
+		if do == "schedule-far" {
+			at = time.Now().Add(time.Hour)
+		}
+		if r.scheduled != nil {
+			r.scheduled(name, at)
+		}
+		r.rec("submit:schedule", name, fmt.Sprintf("at=%d %s %s", at.UnixNano(), do, how))
+		t.Schedule(at)
+		r.rec("schedule-return", name, "")
 	}
 }
 
@@ -237,7 +274,7 @@ func genCase(t *rapid.T, prefix string) *caseSpec {
 			Point:   rapid.SampledFrom([]string{"tasks.handler.popped", "tasks.run.checked", "tasks.exec.returned"}).Draw(t, "point"),
 			Task:    c.Tasks[rapid.IntRange(0, n-1).Draw(t, "atask")].Name,
 			Nth:     rapid.IntRange(1, 2).Draw(t, "nth"),
-			Do:      rapid.SampledFrom([]string{"cancel", "queue", "asap", "prioritize"}).Draw(t, "ado"),
+			Do:      rapid.SampledFrom([]string{"cancel", "queue", "asap", "prioritize", "schedule-soon", "schedule-soon", "schedule-far"}).Draw(t, "ado"),
 			SleepMS: rapid.SampledFrom([]int{0, 0, 30}).Draw(t, "asleep"),
 		})
 	}
@@ -290,6 +327,11 @@ func (c *caseSpec) start(prefix string) *runState {
 			rs.onlySched[i].Store(false)
 		}
 	}
+	r.scheduled = func(name string, at time.Time) {
+		if i, ok := idx[name]; ok {
+			rs.noteSchedule(i, at)
+		}
+	}
 	for i := range c.Tasks {
 		i := i
 		ts := c.Tasks[i]
@@ -322,8 +364,9 @@ func (c *caseSpec) start(prefix string) *runState {
 				case "schedule":
 					at := time.Now().Add(8 * time.Millisecond)
 					rs.noteSchedule(i, at)
-					r.rec("submit:schedule", ts.Name, "inside")
+					r.rec("submit:schedule", ts.Name, fmt.Sprintf("at=%d inside", at.UnixNano()))
 					t.Schedule(at)
+					r.rec("schedule-return", ts.Name, "")
 				}
 			}
 			atomic.AddInt32(&rs.gauges[i], -1)
@@ -356,8 +399,9 @@ func (c *caseSpec) execOps(rs *runState) {
 		case "schedule":
 			at := time.Now().Add(time.Duration(o.MS) * time.Millisecond)
 			rs.noteSchedule(o.Task, at)
-			r.rec("submit:schedule", name, fmt.Sprintf("+%dms", o.MS))
+			r.rec("submit:schedule", name, fmt.Sprintf("at=%d +%dms", at.UnixNano(), o.MS))
 			t.Schedule(at)
+			r.rec("schedule-return", name, "")
 		case "queue", "prioritize", "asap":
 			rs.onlySched[o.Task].Store(false)
 			r.apply(t, name, o.Do, "outside")
@@ -451,6 +495,11 @@ func render(evs []event) string {
 	return sb.String()
 }
 
+type schedSub struct {
+	seq, ret int64 // seq of the record made before the call and of the one made after it returned (0 = not yet)
+	at       int64 // the requested time (unix nano)
+}
+
 // judge checks clauses 1-4 on the recorded history.
 func (c *caseSpec) judge(t fatalf, rs *runState, stuck string, final []taskFinal) {
 	evs := rs.r.events
@@ -472,15 +521,69 @@ func (c *caseSpec) judge(t fatalf, rs *runState, stuck string, final []taskFinal
 		cancelReturn      int64 // seq of the first cancel-return, 0 = never
 		lastSubmitIsSched bool
 		lastSubmitDue     bool
+		// for the per-run reading of "only scheduled" (see below)
+		queueSubs      int   // queue / prioritize / asap submissions, whoever made them
+		firstQueueSeq  int64 // seq of the first of them
+		firstQueueRet  int64 // seq of the record made after that call returned (0: made from inside the task, not recorded)
+		lastAdmission  int64 // seq of the admission of the most recent run
+		prevAdmission  int64 // ... and of the run before it
+		held, prevHeld bool  // at that admission another handler held the task (taken from a queue earlier, not yet dealt with)
+		firstAdmission int64
+		admissions     int
+		scheds         []schedSub
+		pendingSchedIx int // index in scheds of a schedule call that has not returned yet, -1 = none
 	}
 	st := map[string]*tstate{}
 	for _, ts := range c.Tasks {
-		st[ts.Name] = &tstate{}
+		st[ts.Name] = &tstate{pendingSchedIx: -1}
 	}
+	// openPop: the task a handler goroutine has taken from a queue and not yet dealt with, as far as the events show (its
+	// next event - an admission of that task or its next pop - closes it)
+	openPop := map[int64]string{}
 	for _, e := range evs {
 		s := st[e.task]
 		if s == nil {
 			continue
+		}
+		switch e.kind {
+		case "popped":
+			openPop[e.gid] = e.task
+		case "checked":
+			if openPop[e.gid] == e.task {
+				delete(openPop, e.gid)
+			}
+			// a handler that holds this task from before this admission may run it once more, whatever is submitted or not
+			s.prevHeld, s.held = s.held, false
+			for _, tk := range openPop {
+				if tk == e.task {
+					s.held = true
+				}
+			}
+		}
+		switch e.kind {
+		case "submit:queue", "submit:prioritize", "submit:asap":
+			if s.queueSubs++; s.queueSubs == 1 {
+				s.firstQueueSeq = e.seq
+			}
+		case "submit:schedule":
+			var at int64
+			if _, err := fmt.Sscanf(e.info, "at=%d", &at); err == nil {
+				s.scheds = append(s.scheds, schedSub{seq: e.seq, at: at})
+				s.pendingSchedIx = len(s.scheds) - 1
+			}
+		case "queue-return":
+			if s.firstQueueRet == 0 {
+				s.firstQueueRet = e.seq
+			}
+		case "schedule-return":
+			// (calls on one task are recorded by the goroutine that makes them; an inline action and an outside call can
+			// overlap: the return is credited to the oldest call that has none yet)
+			for i := range s.scheds {
+				if s.scheds[i].ret == 0 {
+					s.scheds[i].ret = e.seq
+					break
+				}
+			}
 		}
 		switch {
 		case strings.HasPrefix(e.kind, "submit:"):
@@ -491,6 +594,10 @@ func (c *caseSpec) judge(t fatalf, rs *runState, stuck string, final []taskFinal
 				s.cancelReturn = e.seq
 			}
 		case e.kind == "checked":
+			s.prevAdmission, s.lastAdmission = s.lastAdmission, e.seq
+			if s.admissions++; s.admissions == 1 {
+				s.firstAdmission = e.seq
+			}
 			// the state checks (under the task lock) passed for this run
 			if s.cancelReturn != 0 && s.cancelReturn < e.seq {
 				fail("C07-3-run-after-cancel", "task %s was admitted for execution (seq %d) after Cancel had returned (seq %d) while it was still waiting", e.task, e.seq, s.cancelReturn)
@@ -498,8 +605,26 @@ func (c *caseSpec) judge(t fatalf, rs *runState, stuck string, final []taskFinal
 		case e.kind == "begin":
 			s.begins++
 			s.lastBegin = e.seq
-			if strings.Contains(e.info, "EARLY") {
-				fail("C07-2-early", "task %s, which was only scheduled, began before its scheduled time:%s", e.task, e.info)
+			// (the "EARLY" note of the task body compares with the Schedule calls since the previous begin; it is kept as a
+			// hint in the event list, the verdict is made from the recorded calls and their returns)
+			// "Only scheduled", run by run. The task was put into a queue exactly once, and that call had returned before its
+			// first admission: the first run is the queued one, and it takes everything submitted before its admission with it
+			// (the admission clears the queues and the schedule under the task lock). Any later run can only be owed to
+			// Schedule calls that had not returned before the admission of the run before it - and may not begin before
+			// the earliest time one of those asked for.
+			// A task that has never been put into a queue is owed to Schedule calls alone from its first run on.
+			// (No verdict for a run whose predecessor was admitted while another handler held the task: that handler runs
+			// it when it gets on.)
+			if !s.prevHeld && (s.queueSubs == 0 || (s.begins >= 2 && s.queueSubs == 1 && s.prevAdmission != 0 && s.firstQueueRet != 0 && s.firstQueueRet < s.firstAdmission)) {
+				var earliest int64
+				for _, sc := range s.scheds {
+					if sc.seq < e.seq && (sc.ret == 0 || sc.ret > s.prevAdmission) && (earliest == 0 || sc.at < earliest) {
+						earliest = sc.at
+					}
+				}
+				if earliest != 0 && e.at.UnixNano() < earliest {
+					fail("C07-2-early", "run %d of task %s began %s before the earliest time that any Schedule call since the admission of its previous run (seq %d; 0 = none) asked for; the task was put into a queue %d times (if once: before its first run) - this run is owed to Schedule calls alone", s.begins, e.task, time.Duration(earliest-e.at.UnixNano()), s.prevAdmission, s.queueSubs)
+				}
 			}
 		}
 	}
@@ -827,6 +952,54 @@ func TestRegStaleScheduleTimerStartsTaskEarly(t *testing.T) {
 				{Name: prefix + "t2", HoldMS: 10, MaxDelay: "1h"},
 			},
 			Ops: []op{{Do: "queue", Task: 2}, {Do: "sleep", MS: 2}, {Do: "queue", Task: 0}, {Do: "schedule", Task: 1, MS: 70}},
+		}
+		rs := c.start(prefix)
+		c.execOps(rs)
+		stuck := c.quiesce(rs)
+		final := c.finalStates(rs)
+		c.finish(rs)
+		c.judge(t, rs, stuck, final)
+	}
+}
+
+// fixed finding: executeWithLocking reset the task's execution time without the task lock, right before the function
+// ran. A Schedule call that came between the admission of a run (under the lock) and that reset - the window includes
+// the wait for a time slot - kept its schedule entry, but with a zero time: the schedule handler found it due at once
+// and the task ran again immediately instead of at the scheduled time. (With the far-future time of this case: an hour
+// early.)
+func TestRegScheduleBetweenAdmissionAndStart(t *testing.T) {
+	for round := 0; round < 3; round++ {
+		prefix := fmt.Sprintf("r%d.", atomic.AddInt64(&caseSeq, 1))
+		c := &caseSpec{
+			Module:  0,
+			Tasks:   []taskSpec{{Name: prefix + "t0", HoldMS: 3, MaxDelay: "1h"}},
+			Ops:     []op{{Do: []string{"queue", "prioritize", "asap"}[round], Task: 0}, {Do: "sleep", MS: 10}},
+			Actions: []*inlineAction{{Point: "tasks.run.checked", Task: prefix + "t0", Nth: 1, Do: "schedule-far"}},
+		}
+		rs := c.start(prefix)
+		c.execOps(rs)
+		stuck := c.quiesce(rs)
+		final := c.finalStates(rs)
+		c.finish(rs)
+		c.judge(t, rs, stuck, final)
+	}
+}
+
+// fixed finding: runWithLocking cleared the queues and the schedule entry of a task before it looked whether the task was
+// executing. A handler call that arrives while the task executes (here: the queue handler, held up for 30 ms with a
+// task it had taken from the queue, while the schedule handler ran that task because its max delay expired) wiped the
+// entry of a Schedule call made during that execution: the task was never run at the scheduled time.
+func TestRegScheduleDuringExecutionSurvivesLateHandlerCall(t *testing.T) {
+	for round := 0; round < 3; round++ {
+		prefix := fmt.Sprintf("r%d.", atomic.AddInt64(&caseSeq, 1))
+		c := &caseSpec{
+			Module: 0,
+			Tasks:  []taskSpec{{Name: prefix + "t0", HoldMS: 3, MaxDelay: "20ms"}},
+			Ops:    []op{{Do: "sleep", MS: 10}, {Do: "asap", Task: 0}, {Do: "sleep", MS: 5}, {Do: "asap", Task: 0}},
+			Actions: []*inlineAction{
+				{Point: "tasks.handler.popped", Task: prefix + "t0", Nth: 2, Do: "queue", SleepMS: 30},
+				{Point: "tasks.exec.returned", Task: prefix + "t0", Nth: 2, Do: "schedule-soon", SleepMS: 30},
+			},
 		}
 		rs := c.start(prefix)
 		c.execOps(rs)
